@@ -68,8 +68,9 @@ static void families(std::vector<RCfg>& out, bool thorough) {
       for (size_t i = 0; i < n; i += 3) for (size_t j = i + 1; j < n; j += 5) {
          if (out[i].family == out[j].family || out[i].family == "prefix-keys" || out[j].family == "prefix-keys") continue;
          RCfg r; r.family = out[i].family + "+" + out[j].family; r.cfg = out[i].cfg; r.dom = out[i].dom; size_t off = r.cfg.args.size();
-         // rename the second configuration's arguments: d,e,f / delta, epsilon, phi
-         static const char sk[] = {'d', 'e', 'f'}; static const char* lk[] = {"delta", "epsilon", "phi"};
+         if (out[j].cfg.args.size() > 6) continue;
+         // rename the second configuration's arguments: d,e,f,k,z,y (never q: '-q' and '--quebec' are the unknown keys of the surface mutations)
+         static const char sk[] = {'d', 'e', 'f', 'k', 'z', 'y'}; static const char* lk[] = {"delta", "epsilon", "phi", "kappa", "zeta", "ypsilon"};
          for (size_t a = 0; a < out[j].cfg.args.size(); ++a) { Arg x = out[j].cfg.args[a]; if (x.sk) x.sk = sk[a]; if (!x.lk.empty()) x.lk = lk[a]; for (int& e : x.excl) e += int(off); for (int& e : x.req) e += int(off); r.cfg.args.push_back(x); r.dom.push_back(out[j].dom[a]); }
          for (auto h : out[j].cfg.hcs) { for (int& m : h.members) m += int(off); r.cfg.hcs.push_back(h); }
          out.push_back(r);
